@@ -130,6 +130,25 @@ def check_structure(teal: Any, function: Any, path: List[str]) -> List[str]:
         if block_key(fsub.entry) != block_key(csub.entry):
             bad.append(f"subroutine {name}: entry differs")
 
+    # --- per-function call tables: callers of a subroutine are the function's own callsub blocks,
+    # return points the blocks that follow them (a cut-away caller contributes neither)
+    for name in sorted(function.subroutines):
+        fsub = function.subroutines[name]
+        want_callers = [b for b in function.blocks if b.is_callsub_block and b.called_subroutine is fsub]
+        got_callers = list(function.caller_blocks(fsub))
+        if sorted(id(b) for b in want_callers) != sorted(id(b) for b in got_callers):
+            bad.append(
+                f"subroutine {name}: caller table {sorted(block_key(b) for b in got_callers)} != "
+                f"the function's callsub blocks {sorted(block_key(b) for b in want_callers)}"
+            )
+        want_rp = [b.next[0] for b in want_callers if len(b.next) == 1]
+        got_rp = list(function.return_point_blocks(fsub))
+        if sorted(id(b) for b in want_rp) != sorted(id(b) for b in got_rp):
+            bad.append(
+                f"subroutine {name}: return points {sorted(block_key(b) for b in got_rp)} != "
+                f"successors of the function's callers {sorted(block_key(b) for b in want_rp)}"
+            )
+
     # --- function.blocks = main part + subroutine blocks; next/prev mirror inside the function
     fblocks = list(function.blocks)
     inside = set(id(b) for b in fblocks)
